@@ -8,7 +8,7 @@ EXTENDS Struct, Json, SequencesExt
 CONSTANTS MaxFields, Pairs   \* Pairs: emit two-field shapes too
 
 GoTypes == {"string", "*int", "[]uint8", "bool", "float64", "[]string", "*[]string", "time.Time", "*uint64",
-            "named-int", "*named-string", "named-strings", "*[]uint8", "*time.Time", "*bool", "*string"}   \* user-defined types whose underlying type is supported
+            "named-int", "*named-string", "named-strings", "*[]uint8", "*time.Time", "*bool", "*string", "**int", "**string"}   \* user-defined types whose underlying type is supported
 JsonTags == {"a", "b", "", "id", "~", "a,omitempty"}   \* "~": json:"" (the key is there, the name is empty); the last one: the whole tag is the name, option and all
 ApiTags == {"", "attr", "rel", "rel,", "rel,tt", "rel,tt,inv", "rel,a,b,c", "other", "rel,,inv", "attr,omitempty", "related", "relation,tt"}
 IdVariants == {"ok", "noapi", "absent", "int", "jsonother", "nojson", "last", "named"}
